@@ -56,15 +56,15 @@ type knownFinding struct {
 }
 
 type replayRec struct {
-	Property string            `json:"property"`
-	Harness  string            `json:"harness"`
-	Shape    map[string]int    `json:"shape"`
-	Known    []string          `json:"known"`
-	Kind     string            `json:"kind"` // assert panic exit budget witness
-	Msg      string            `json:"msg"`
-	Values   []sx.ReplayValue  `json:"values"`
-	Obs      []string          `json:"expect_obs"`
-	Reach    []string          `json:"expect_reach"`
+	Property string           `json:"property"`
+	Harness  string           `json:"harness"`
+	Shape    map[string]int   `json:"shape"`
+	Known    []string         `json:"known"`
+	Kind     string           `json:"kind"` // assert panic exit budget witness
+	Msg      string           `json:"msg"`
+	Values   []sx.ReplayValue `json:"values"`
+	Obs      []string         `json:"expect_obs"`
+	Reach    []string         `json:"expect_reach"`
 }
 
 type replayResult struct {
